@@ -166,7 +166,7 @@ func checkC12(c *Ctx) {
 	checkLocationNodes(c, pk)
 
 	// ---- R2 recursion guard
-	checkRecursionGuard(c, pk)
+	checkRecursionGuard(c, "C12.R2.recursion-guard", pk)
 
 	// ---- R3 relational guard presence
 	r := c.diffRel()
@@ -376,8 +376,7 @@ func toMapNonNil(pk *packages.Package) bool {
 
 // checkRecursionGuard: compareSchema's $ref path tests and updates the visited set before
 // resolving; the key function is loop-free.
-func checkRecursionGuard(c *Ctx, pk *packages.Package) {
-	rule := "C12.R2.recursion-guard"
+func checkRecursionGuard(c *Ctx, rule string, pk *packages.Package) {
 	c.Rule(rule, "compareSchema: on the isRefType(schema1) path the visited-set membership test (early return) and insertion precede the $ref resolution and every recursive descent; the visited key is computed without loops or recursion", 4)
 	info := pk.TypesInfo
 	fd := load.FuncDecl(pk, "SpecAnalyser.compareSchema")
